@@ -35,26 +35,24 @@ impl PanicInfo {
 
     /// Stable identity of the panic site (see module doc).
     pub fn signature(&self) -> String {
-        let msg: String = self
-            .message
-            .chars()
-            .map(|c| if c.is_ascii_digit() { '#' } else { c })
-            .take(70)
-            .collect();
-        let mut msg2 = String::new();
-        let mut last_hash = false;
-        for c in msg.chars() {
-            if c == '#' {
-                if !last_hash {
-                    msg2.push('#');
-                }
-                last_hash = true;
-            } else {
-                msg2.push(c);
-                last_hash = false;
+        // The message is cut before its first variable part (a digit or a quoted value), so that
+        // one site gives one signature whatever the input was.
+        let mut msg = String::new();
+        for c in self.message.chars() {
+            if c.is_ascii_digit() || c == '\'' || c == '"' {
+                break;
+            }
+            msg.push(c);
+            if msg.len() >= 70 {
+                break;
             }
         }
-        format!("panic@{}::{} [{}]", self.repo_file, self.repo_function, msg2)
+        format!(
+            "panic@{}::{} [{}]",
+            self.repo_file,
+            self.repo_function,
+            msg.trim_end()
+        )
     }
 }
 
